@@ -66,7 +66,11 @@ def compare(m, M, exact=True, tol=0.0, want_ori=True, same_class=True):
     elif not exact and np.abs(m.p - M.p).max() > tol:
         out.append(('p', f'max abs diff {np.abs(m.p - M.p).max():.3e} > {tol}'))
     if m.t.shape != M.t.shape or not np.array_equal(m.t, M.t):
-        out.append(('t', 'connectivity differs'))
+        # a triangle mesh whose cells are not in ascending vertex order (oriented(), sort_t=False) is loaded by a class
+        # that sorts them: the same cells, vertex order within a cell aside
+        if not (m.t.shape == M.t.shape and not getattr(m, 'sort_t', True) is True and type(m).__name__ == 'MeshTri1'
+                and np.array_equal(np.sort(m.t, axis=0), np.sort(M.t, axis=0))):
+            out.append(('t', 'connectivity differs'))
     for what, a, b in (('subdomains', m.subdomains, M.subdomains), ('boundaries', m.boundaries, M.boundaries)):
         a, b = a or {}, b or {}
         if sorted(a) != sorted(b):
@@ -77,11 +81,16 @@ def compare(m, M, exact=True, tol=0.0, want_ori=True, same_class=True):
             if sorted(sa.tolist()) != sorted(sb.tolist()):
                 out.append((what + '-set', f'{k}: {sorted(sa.tolist())} -> {sorted(sb.tolist())}'))
             elif what == 'boundaries' and want_ori:
-                da, db = tag_ori(a[k]), tag_ori(b[k])
+                # orientation = which cell is on the tagged side (the flag indexes the rows of f2t; equal tables: equal flags)
+                da = {f: int(m.f2t[o, f]) for f, o in tag_ori(a[k]).items()}
+                db = {f: int(M.f2t[o, f]) for f, o in tag_ori(b[k]).items()}
+                if getattr(a[k], 'ori', None) is None and getattr(b[k], 'ori', None) is None:
+                    continue            # unoriented before and after: no side to compare
+                # (an unoriented tag that comes back with flags must still designate the side f2t[0] it had implicitly)
                 if da != db:
                     bad = sorted(f for f in da if da[f] != db[f])
-                    out.append(('orientation', f'{k}: {len(bad)} of {len(da)} facets, e.g. facet {bad[0]}: '
-                                               f'{da[bad[0]]} -> {db[bad[0]]}'))
+                    out.append(('orientation', f'{k}: {len(bad)} of {len(da)} facets, e.g. facet {bad[0]}: tagged side '
+                                               f'cell {da[bad[0]]} -> cell {db[bad[0]]}'))
     return out
 
 
@@ -126,7 +135,13 @@ def _npz_rt(m, pd, cd):
 
 
 def _dict_rt(m, pd, cd):
-    return type(m).from_dict(m.to_dict()), None, None
+    import copy
+    d = m.to_dict()
+    d0 = copy.deepcopy(d)
+    M = type(m).from_dict(d)
+    if list(d) != list(d0) or any(type(d[k]) is not type(d0[k]) or d[k] != d0[k] for k in d0):
+        raise AssertionError('from_dict modified the dictionary given by the caller')
+    return M, None, None
 
 
 def _json_rt(m, pd, cd):
@@ -366,6 +381,7 @@ def one_roundtrip(ctx, m, fmt, rng, codec_ok):
         extra = [pd['upoint'], cd['ucell'][0]]
         keep = (pd['upoint'].copy(), cd['ucell'][0].copy())
     cs0 = checksum(m, extra)
+    own = None if not userdata else (list(pd), list(cd), pd['upoint'], cd['ucell'], cd['ucell'][0])
     try:
         with quiet():
             M, opd, ocd = fn(m, pd, cd)
@@ -377,6 +393,10 @@ def one_roundtrip(ctx, m, fmt, rng, codec_ok):
     if checksum(m, extra) != cs0:
         ctx.fail(f'mutated:{fmt}:{name}', 'exporting altered the mesh or the user data arrays',
                  {'mesh': mesh_json(m), 'format': fmt})
+    if own is not None and not (list(pd) == own[0] and list(cd) == own[1] and pd['upoint'] is own[2]
+                                and cd['ucell'] is own[3] and cd['ucell'][0] is own[4]):
+        ctx.fail(f'caller-dict-changed:{fmt}:{name}', 'exporting changed the point_data / cell_data dictionaries of the caller',
+                 {'mesh': mesh_json(m), 'format': fmt, 'point_data_keys': list(pd), 'cell_data_keys': list(cd)})
     plain = fmt in PLAIN
     diffs = compare(m, M, exact=exact, tol=tol, want_ori=True, same_class=not (first_only and name in SECOND))
     if not exact and m.p.shape == M.p.shape:
@@ -396,6 +416,10 @@ def one_roundtrip(ctx, m, fmt, rng, codec_ok):
             continue      # already reported with the codec itself as the call site (KEY_F7)
         key = f'{what}:{fmt}:{name}'
         msg = f'{fmt} round trip of a {name}: {what} not preserved ({detail})'
+        if what == 'orientation' and plain and getattr(m, 'sort_t', True) is False:
+            # open defect (reported): the array formats do not record sort_t=False; the class re-sorts the cells on load,
+            # the rows of f2t are exchanged and the stored flags then select the other side
+            key = 'orientation-side:unsorted-cells:npz-dict-json'
         ctx.fail(key, msg, {'mesh': mesh_json(m), 'format': fmt, 'difference': [what, detail]})
 
 
@@ -461,6 +485,9 @@ def oracle(ctx):
     for name in ALL:
         for rep in range(nper):
             m = rand_mesh(name, rng)
+            if rep % 3 == 1 and name in ('MeshTri1', 'MeshTet1'):
+                m = m.oriented()                                   # cells not in ascending vertex order (sort_t=False)
+                ctx.hist('unsorted_cells', name)
             sub, bnd = rand_tags(m, rng, empty=rep > 0)
             if rep == nper - 1 and rng.random() < 0.5:
                 mt = m                                             # an untagged mesh now and then
